@@ -149,6 +149,78 @@ def _r1_graph(ctx):
               "the decorator does not register the step")
 
 
+def r7_producer_before_consumer(ctx):
+    """rule table derived from the steps' own data flow instead of from
+    their declarations: a step that *creates* a column (assigns
+    `apret[<name>]` without reading it) must be a declared predecessor -
+    required (directly or through required steps) or optional - of every
+    other step that addresses that column by name; otherwise an order in
+    which the consumer runs first is accepted and the consumer silently
+    skips the column that does not exist yet"""
+    steps = facts.preprocessing_steps(ctx.repo)
+    ids = {k.get("identifier"): (f, k, d) for f, k, d in steps}
+
+    def strings(f):
+        doc = None
+        if f.body and isinstance(f.body[0], ast.Expr) and isinstance(
+                f.body[0].value, ast.Constant):
+            doc = f.body[0].value
+        return {n.value for n in ast.walk(f) if isinstance(n, ast.Constant)
+                and isinstance(n.value, str) and n is not doc}
+
+    creates = {}
+    for me, (f, k, d) in ids.items():
+        ps = func_params(f)
+        if not ps:
+            continue
+        ap = ps[0]
+        stored, loaded = set(), set()
+        for n in ast.walk(f):
+            if isinstance(n, ast.Subscript) and isinstance(
+                    n.value, ast.Name) and n.value.id == ap and isinstance(
+                    n.slice, ast.Constant) and isinstance(n.slice.value, str):
+                (stored if isinstance(n.ctx, ast.Store)
+                 else loaded).add(n.slice.value)
+        for n in ast.walk(f):
+            if isinstance(n, ast.AugAssign) and isinstance(
+                    n.target, ast.Subscript) and isinstance(
+                    n.target.slice, ast.Constant):
+                loaded.add(n.target.slice.value)
+        for c in stored - loaded:
+            creates.setdefault(c, set()).add(me)
+    ctx.floor("columns created by a preprocessing step", len(creates), 1)
+
+    def req_closure(me):
+        out, todo = set(), [me]
+        while todo:
+            x = todo.pop()
+            for r in (ids[x][1].get("steps_required") or []) if x in ids \
+                    else []:
+                if r not in out:
+                    out.add(r)
+                    todo.append(r)
+        return out
+    n = 0
+    for col, producers in sorted(creates.items()):
+        for me, (f, k, d) in sorted(ids.items()):
+            if me in producers or col not in strings(f):
+                continue
+            for p_ in sorted(producers):
+                n += 1
+                declared = req_closure(me) | set(k.get("steps_optional")
+                                                 or [])
+                ctx.check(p_ in declared, d,
+                          f"'{me}' addresses '{col}' created by '{p_}': "
+                          "declared predecessor",
+                          f"step '{me}' works on the column '{col}', which "
+                          f"step '{p_}' creates, but does not declare "
+                          f"'{p_}' as a required or optional predecessor: "
+                          f"check_order accepts, and autosort keeps, "
+                          f"['{me}', '{p_}'] - the column is then created "
+                          f"after '{me}' ran and is left untreated")
+    ctx.floor("consumer/producer pairs", n, 3)
+
+
 LIST_MUT = {"remove", "insert", "append", "extend", "pop", "sort", "reverse",
             "clear", "__setitem__", "__delitem__"}
 
@@ -760,4 +832,7 @@ RULES = [
      "precursors", r5_check_order),
     ("C14-R6", "autosort repeats its insertion pass until nothing moves "
      "(precursor chains of three edges exist)", r6_fixpoint),
+    ("C14-R7", "a step that creates a column is a declared predecessor of "
+     "every step that addresses that column (table derived from the steps' "
+     "data flow, not from their declarations)", r7_producer_before_consumer),
 ]
